@@ -4,14 +4,14 @@
    a driver.Valuer was unwrapped: a Valuer is one key whatever its Go kind (slice, array, struct). *)
 From Verif Require Import Base C01_Model C01_Stmt C01_Spec.
 
-(* a key that is no list, no string, no nil: an int, a bool, a pointer to one, a driver.Valuer *)
-Definition scalar_key (s : scalar) : Prop := s <> SNull /\ forall b, s <> SBytes b.
+(* what a driver.Valuer key yields: anything but nil - an int, a string, a bool, also a []byte (70948e8) *)
+Definition scalar_key (s : scalar) : Prop := s <> SNull.
 
 Lemma valuer_key_cond : forall s, scalar_key s ->
   build_condition (VDrv s) [] = [VIn primary_column [VDrv s]].
 Proof.
-  intros s [Hn Hb]. unfold build_condition. cbn [length gen_conds Nat.eqb].
-  destruct s; try reflexivity; [exfalso; eapply Hb; reflexivity | exfalso; apply Hn; reflexivity].
+  intros s Hn. unfold build_condition. cbn [length gen_conds Nat.eqb].
+  destruct s; try reflexivity. exfalso; apply Hn; reflexivity.
 Qed.
 
 (* one placeholder, bound to the Valuer's value; the text around it is the quoted key column *)
@@ -25,6 +25,9 @@ Qed.
 (* a list given as the only argument is the list of keys, whatever its element type (also a named
    uint8-kind element type: LU8); an empty list gives no condition at all *)
 Lemma list_key_cond : forall k x l, build_condition (VList k (x :: l)) [] = [VIn primary_column (x :: l)].
+Proof. intros. reflexivity. Qed.
+(* a []byte given as the only key is one key, bound whole (70948e8) *)
+Lemma bytes_key_cond : forall b, build_condition (VS (SBytes b)) [] = [VIn primary_column [VS (SBytes b)]].
 Proof. intros. reflexivity. Qed.
 Lemma empty_list_key_cond : forall k, build_condition (VList k []) [] = [].
 Proof. intros. reflexivity. Qed.
